@@ -90,6 +90,24 @@ def run_c10(ctx, fa):
             continue
         c["nodes"] = gen.count_nodes(ir)
         cases.append(c)
+    # typed arrays (array.array): homogeneous in C type, not in conformance - one item out of the 32-bit range at any position
+    import array as _array
+    for i in range(12 if ctx.quick() else 120):
+        items = [rnd.randint(-5, 5) for _ in range(rnd.randint(1, 5))]
+        pos = rnd.randrange(len(items) + 1)
+        bad = rnd.random() < 0.7
+        if bad:
+            items.insert(pos, rnd.choice([2 ** 31, -2 ** 31 - 1, 2 ** 40]))
+        raw = {"type": "array", "items": "int"} if rnd.random() < 0.5 else \
+            {"type": "record", "name": "T", "fields": [{"name": "xs", "type": {"type": "array", "items": "int"}}]}
+        datum = _array.array("q", items)
+        datum = datum if isinstance(raw, dict) and raw["type"] == "array" else {"xs": datum}
+        try:
+            c = validate_case(fa, "v%d" % len(cases), raw, datum, [], rnd.random() < 0.4, True, "typed-array-out-of-range" if bad else None)
+        except Exception:  # noqa: BLE001
+            continue
+        c["nodes"] = 2
+        cases.append(c)
     ctx.rule = ("seeded schemas (incl. logical types) x conforming data and data made non-conforming by exactly one mutation at a random position (wrong "
                 "Python type, out-of-range int, bool for int, wrong fixed size, bytearray for fixed, unknown symbol, non-string map key, missing required "
                 "field, wrong hint) x strict x disable_tuple_notation; validate quiet and loud, schemaless writer, Writer(validator=True) with records "
